@@ -18,7 +18,8 @@ RULE = ("case = 1-5 watchers with priorities from a small range (ties "
         "a name or with a glob matching several watchers; all or some watchers "
         "stopped in between, workers dying just before - noticed by a check or "
         "not, respawn on or off; on-demand watchers woken together by a "
-        "client connection), "
+        "client connection; a quarter of the daemons are started from an ini "
+        "file), "
         "with worker deaths injected at generated kernel-call boundaries of "
         "the sequence.  Non-trivial = >= 2 autostart watchers with different "
         "priorities, or a non-zero delay; distinct by hash of the case.")
@@ -85,6 +86,12 @@ def analyse(seq_name, spawns, wmap, order_expected, gwarm, viols):
 
 
 def execute(case):
+    if case.get("config"):
+        # the daemon is started from an ini file (whole seconds there)
+        case = dict(case, ondemand=[], watchers=[
+            dict(wc, warmup_delay=1 if wc.get("warmup_delay", 0) >= 0.5
+                 else 0) for wc in case["watchers"]],
+            global_warmup=1 if case["global_warmup"] >= 1 else 0)
     od = set(case.get("ondemand") or [])
     for i_, wc_ in enumerate(case["watchers"]):
         if i_ in od:
@@ -97,6 +104,8 @@ def execute(case):
           "ops": [], "tape": []}
     if od:
         hc["sockets"] = ["unix"]
+    if case.get("config"):
+        hc["config"] = True
     h = History(hc)
     w = h.world
     k = w.kernel
@@ -280,6 +289,7 @@ def _strategy():
                 "start_faults": draw(st.lists(fault, max_size=2)),
                 "periodic": draw(st.sampled_from([None, None, 0.2, 0.05])),
                 "ondemand": od,
+                "config": draw(st.integers(0, 3)) == 0,
                 "sequences": seqs}
     return case()
 
